@@ -148,3 +148,27 @@ class AuditLog:
 
     def clear(self):
         self.events.clear()
+
+
+def start_reach(ctx, cap=2000):
+    """Attach PY_START reach counters for the whole shard (low overhead: a code object is disabled after ``cap`` hits)."""
+    ctx._reach = Reach(cap=cap).start()
+    return ctx._reach
+
+
+def finish_reach(ctx, anchors):
+    """Record 'reach:<anchor>' counters (function entries observed, capped) for the listed anchor suffixes."""
+    r = getattr(ctx, "_reach", None)
+    if r is None:
+        return
+    r.stop()
+    for a, n in r.reached(*anchors).items():
+        ctx.count("reach:" + a, n)
+    ctx.count("reach:functions_entered", len(r.counts))
+
+
+def require_reach(m, anchors, lo=1):
+    """finalize helper: zero reach of a deciding anchor function => inconclusive."""
+    for a in anchors:
+        if m["counters"].get("reach:" + a, 0) < lo:
+            m["inconclusive"].append(f"anchor function {a} was entered {m['counters'].get('reach:' + a, 0)} times (< {lo})")
